@@ -1,14 +1,833 @@
-// Package c06 is the correspondence area of property C06 (stub: the slice is not built yet).
+// Package c06 is the correspondence area of property C06: generated Watch/UpdateDesc/Close
+// histories are applied to the REAL routing.PatternRouter and routing.ServiceRouter, and a probe set
+// is routed through RouteHTTP / RouteGRPC (and, for C14, through ServiceRouter.RouteHTTP on requests
+// parsed by net/http, GRPCWebBridge.ServeHTTP and GRPCProxy.StreamHandler) after EVERY operation.
+// The Lean driver (GB/C06/Hist.lean) replays the same history through the models and the specification.
+//
+// Line format (see also GB/C06/Hist.lean):
+//
+//	hist K=<pool names> [P=…] [G=…] [H=…] [W=…] [X=…] <op> <op> … => <step token> …
 package c06
 
 import (
+	"bufio"
+	"context"
+	"errors"
+	"fmt"
 	"math/rand"
+	"net/http"
+	"net/http/httptest"
+	"regexp"
+	"strconv"
+	"strings"
+
+	grpcbridge "github.com/renbou/grpcbridge"
+	"github.com/renbou/grpcbridge/bridgedesc"
+	"github.com/renbou/grpcbridge/grpcadapter"
+	"github.com/renbou/grpcbridge/routing"
+	"github.com/renbou/grpcbridge/webbridge"
+	"google.golang.org/grpc"
+	"google.golang.org/grpc/status"
+	"google.golang.org/protobuf/reflect/protoreflect"
+	"verif/harness/common"
 )
 
 type Area struct{}
 
 func (Area) Name() string { return "c06" }
 
-func (Area) Exec(input string) string { return "UNIMPLEMENTED" }
+// ---------------------------------------------------------------------------------------------
+// line parsing / printing
 
-func (Area) Gen(r *rand.Rand, tier string, emit func(string)) {}
+type BindingSpec struct{ HTTPMethod, Pattern string }
+type MethodSpec struct {
+	RPCName  string
+	Bindings []BindingSpec
+}
+type ServiceSpec struct {
+	Name    string
+	Methods []MethodSpec
+}
+type DescSpec struct {
+	Name     string
+	Services []ServiceSpec
+}
+
+type Op struct {
+	Kind byte // 'w', 'u', 'c'
+	Name string
+	Desc *DescSpec
+}
+
+type Line struct {
+	Pool []string
+	P    [][2]string // method, path
+	G    []*string   // nil = no method in the context
+	H    [][2]string // method, request target
+	W    []string    // request target
+	X    []string    // method name
+	Ops  []Op
+}
+
+func hx(s string) string { return common.HexS(s) }
+func unhx(s string) string {
+	return string(common.MustUnHex(s))
+}
+
+func (d *DescSpec) String() string {
+	var svcs []string
+	for _, s := range d.Services {
+		var ms []string
+		for _, m := range s.Methods {
+			parts := []string{hx(m.RPCName)}
+			for _, b := range m.Bindings {
+				parts = append(parts, hx(b.HTTPMethod)+"~"+hx(b.Pattern))
+			}
+			ms = append(ms, strings.Join(parts, "/"))
+		}
+		svcs = append(svcs, hx(s.Name)+":"+strings.Join(ms, ","))
+	}
+	return hx(d.Name) + "@" + strings.Join(svcs, ";")
+}
+
+func (l *Line) String() string {
+	var t []string
+	t = append(t, "hist")
+	var k []string
+	for _, n := range l.Pool {
+		k = append(k, hx(n))
+	}
+	t = append(t, "K="+strings.Join(k, ","))
+	pairs := func(pfx string, ps [][2]string) {
+		if len(ps) == 0 {
+			return
+		}
+		var xs []string
+		for _, p := range ps {
+			xs = append(xs, hx(p[0])+"~"+hx(p[1]))
+		}
+		t = append(t, pfx+strings.Join(xs, ","))
+	}
+	singles := func(pfx string, ps []string) {
+		if len(ps) == 0 {
+			return
+		}
+		var xs []string
+		for _, p := range ps {
+			xs = append(xs, hx(p))
+		}
+		t = append(t, pfx+strings.Join(xs, ","))
+	}
+	pairs("P=", l.P)
+	if len(l.G) > 0 {
+		var xs []string
+		for _, g := range l.G {
+			if g == nil {
+				xs = append(xs, "-")
+			} else {
+				xs = append(xs, hx(*g))
+			}
+		}
+		t = append(t, "G="+strings.Join(xs, ","))
+	}
+	pairs("H=", l.H)
+	singles("W=", l.W)
+	singles("X=", l.X)
+	for _, o := range l.Ops {
+		switch o.Kind {
+		case 'w', 'c':
+			t = append(t, string(o.Kind)+"="+hx(o.Name))
+		case 'u':
+			t = append(t, "u="+hx(o.Name)+"="+o.Desc.String())
+		}
+	}
+	return strings.Join(t, " ")
+}
+
+func splitNE(s, sep string) []string {
+	if s == "" {
+		return nil
+	}
+	return strings.Split(s, sep)
+}
+
+func parseDesc(s string) *DescSpec {
+	nm, rest, _ := strings.Cut(s, "@")
+	d := &DescSpec{Name: unhx(nm)}
+	for _, ss := range splitNE(rest, ";") {
+		sn, ms, _ := strings.Cut(ss, ":")
+		svc := ServiceSpec{Name: unhx(sn)}
+		for _, m := range splitNE(ms, ",") {
+			parts := strings.Split(m, "/")
+			me := MethodSpec{RPCName: unhx(parts[0])}
+			for _, b := range parts[1:] {
+				hm, pt, _ := strings.Cut(b, "~")
+				me.Bindings = append(me.Bindings, BindingSpec{unhx(hm), unhx(pt)})
+			}
+			svc.Methods = append(svc.Methods, me)
+		}
+		d.Services = append(d.Services, svc)
+	}
+	return d
+}
+
+func ParseLine(input string) *Line {
+	f := strings.Fields(input)
+	l := &Line{}
+	pairs := func(s string) [][2]string {
+		var out [][2]string
+		for _, p := range splitNE(s, ",") {
+			a, b, _ := strings.Cut(p, "~")
+			out = append(out, [2]string{unhx(a), unhx(b)})
+		}
+		return out
+	}
+	singles := func(s string) []string {
+		var out []string
+		for _, p := range splitNE(s, ",") {
+			out = append(out, unhx(p))
+		}
+		return out
+	}
+	for _, tok := range f[1:] {
+		switch {
+		case strings.HasPrefix(tok, "K="):
+			l.Pool = singles(tok[2:])
+		case strings.HasPrefix(tok, "P="):
+			l.P = pairs(tok[2:])
+		case strings.HasPrefix(tok, "G="):
+			for _, p := range splitNE(tok[2:], ",") {
+				if p == "-" {
+					l.G = append(l.G, nil)
+				} else {
+					s := unhx(p)
+					l.G = append(l.G, &s)
+				}
+			}
+		case strings.HasPrefix(tok, "H="):
+			l.H = pairs(tok[2:])
+		case strings.HasPrefix(tok, "W="):
+			l.W = singles(tok[2:])
+		case strings.HasPrefix(tok, "X="):
+			l.X = singles(tok[2:])
+		case strings.HasPrefix(tok, "w="):
+			l.Ops = append(l.Ops, Op{Kind: 'w', Name: unhx(tok[2:])})
+		case strings.HasPrefix(tok, "c="):
+			l.Ops = append(l.Ops, Op{Kind: 'c', Name: unhx(tok[2:])})
+		case strings.HasPrefix(tok, "u="):
+			n, d, _ := strings.Cut(tok[2:], "=")
+			l.Ops = append(l.Ops, Op{Kind: 'u', Name: unhx(n), Desc: parseDesc(d)})
+		default:
+			panic("bad token " + tok)
+		}
+	}
+	return l
+}
+
+// ---------------------------------------------------------------------------------------------
+// fakes
+
+type fakeConn struct{ name string }
+
+func (*fakeConn) Stream(ctx context.Context, method string) (grpcadapter.ClientStream, error) {
+	return nil, errors.New("fake connection")
+}
+func (*fakeConn) Close() {}
+
+type fakePool struct{ conns map[string]*fakeConn }
+
+func (p *fakePool) Get(target string) (grpcadapter.ClientConn, bool) {
+	c, ok := p.conns[target]
+	if !ok {
+		return nil, false
+	}
+	return c, true
+}
+
+type fakeForwarder struct{ got *grpcadapter.ForwardParams }
+
+func (f *fakeForwarder) Forward(_ context.Context, p grpcadapter.ForwardParams) error {
+	f.got = &p
+	return nil
+}
+
+type fakeSTS struct {
+	grpc.ServerTransportStream
+	method string
+}
+
+func (s fakeSTS) Method() string { return s.method }
+
+type fakeServerStream struct {
+	grpc.ServerStream
+	ctx context.Context
+}
+
+func (s fakeServerStream) Context() context.Context { return s.ctx }
+
+// ---------------------------------------------------------------------------------------------
+// execution against the real routers
+
+type world struct {
+	pool  *fakePool
+	pr    *routing.PatternRouter
+	sr    *routing.ServiceRouter
+	web   *webbridge.GRPCWebBridge
+	proxy *grpcbridge.GRPCProxy
+	fwd   *fakeForwarder
+	vers  map[*bridgedesc.Target]int
+	pw    map[string]*routing.PatternRouterWatcher
+	sw    map[string]*routing.ServiceRouterWatcher
+	open  map[string]bool
+}
+
+func newWorld(poolNames []string) *world {
+	w := &world{
+		pool: &fakePool{conns: map[string]*fakeConn{}},
+		vers: map[*bridgedesc.Target]int{},
+		pw:   map[string]*routing.PatternRouterWatcher{},
+		sw:   map[string]*routing.ServiceRouterWatcher{},
+		open: map[string]bool{},
+		fwd:  &fakeForwarder{},
+	}
+	for _, n := range poolNames {
+		w.pool.conns[n] = &fakeConn{name: n}
+	}
+	w.pr = routing.NewPatternRouter(w.pool, routing.PatternRouterOpts{})
+	w.sr = routing.NewServiceRouter(w.pool, routing.ServiceRouterOpts{})
+	w.web = webbridge.NewGRPCWebBridge(w.sr, webbridge.GRPCWebBridgeOpts{Forwarder: w.fwd})
+	w.proxy = grpcbridge.NewGRPCProxy(w.sr, grpcbridge.WithForwarder(w.fwd))
+	return w
+}
+
+func buildTarget(d *DescSpec) *bridgedesc.Target {
+	t := &bridgedesc.Target{Name: d.Name}
+	for _, s := range d.Services {
+		svc := bridgedesc.Service{Name: protoreflect.FullName(s.Name)}
+		for _, m := range s.Methods {
+			me := bridgedesc.Method{RPCName: m.RPCName}
+			for _, b := range m.Bindings {
+				me.Bindings = append(me.Bindings, bridgedesc.Binding{HTTPMethod: b.HTTPMethod, Pattern: b.Pattern})
+			}
+			svc.Methods = append(svc.Methods, me)
+		}
+		t.Services = append(t.Services, svc)
+	}
+	return t
+}
+
+func (w *world) apply(i int, o Op) string {
+	switch o.Kind {
+	case 'w':
+		pw, err1 := w.pr.Watch(o.Name)
+		sw, err2 := w.sr.Watch(o.Name)
+		switch {
+		case err1 == nil && err2 == nil:
+			w.pw[o.Name], w.sw[o.Name], w.open[o.Name] = pw, sw, true
+			return "ok"
+		case errors.Is(err1, routing.ErrAlreadyWatching) && errors.Is(err2, routing.ErrAlreadyWatching):
+			return "already"
+		default:
+			return fmt.Sprintf("mixed:%v:%v", err1 != nil, err2 != nil)
+		}
+	case 'u':
+		t := buildTarget(o.Desc)
+		w.vers[t] = i
+		pw, ok := w.pw[o.Name]
+		if !ok {
+			return "noop" // no watcher was ever created for this name: nothing to call
+		}
+		pw.UpdateDesc(t)
+		w.sw[o.Name].UpdateDesc(t)
+		if w.open[o.Name] && o.Desc.Name == o.Name {
+			return "ok"
+		}
+		return "noop" // closed watcher or foreign description: the call above must have had no effect
+	case 'c':
+		if !w.open[o.Name] {
+			return "noop" // a second Close panics by contract; not executed
+		}
+		w.pw[o.Name].Close()
+		w.sw[o.Name].Close()
+		w.open[o.Name] = false
+		return "ok"
+	}
+	return "badop"
+}
+
+func errTok(err error) string { return fmt.Sprintf("S%d", int(status.Code(err))) }
+
+func (w *world) svcIdx(t *bridgedesc.Target, s *bridgedesc.Service) string {
+	for i := range t.Services {
+		if &t.Services[i] == s {
+			return strconv.Itoa(i)
+		}
+	}
+	return "?"
+}
+
+func (w *world) connOK(conn grpcadapter.ClientConn, name string) bool {
+	c, ok := conn.(*fakeConn)
+	return ok && c == w.pool.conns[name]
+}
+
+func (w *world) grpcTok(conn grpcadapter.ClientConn, t *bridgedesc.Target, s *bridgedesc.Service, m *bridgedesc.Method, checkConn bool) string {
+	v, ok := w.vers[t]
+	if !ok || s == nil || m == nil {
+		return "F?unknown-target"
+	}
+	if checkConn && !w.connOK(conn, t.Name) {
+		return "F?conn"
+	}
+	return fmt.Sprintf("F.%s.%d.%s.%s", hx(t.Name), v, w.svcIdx(t, s), hx(m.RPCName))
+}
+
+func (w *world) probeP(method, path string) string {
+	req, err := http.NewRequest(method, "http://h"+path, nil)
+	if err != nil {
+		return "E"
+	}
+	conn, route, err := w.pr.RouteHTTP(req)
+	if err != nil {
+		return errTok(err)
+	}
+	t := route.Target
+	v, ok := w.vers[t]
+	if !ok {
+		return "F?unknown-target"
+	}
+	if !w.connOK(conn, t.Name) {
+		return "F?conn"
+	}
+	si, mi, bi := "?", "?", "?"
+	for i := range t.Services {
+		if &t.Services[i] == route.Service {
+			si = strconv.Itoa(i)
+			for j := range t.Services[i].Methods {
+				if &t.Services[i].Methods[j] == route.Method {
+					mi = strconv.Itoa(j)
+					me := route.Method
+					for k := range me.Bindings {
+						if &me.Bindings[k] == route.Binding {
+							bi = strconv.Itoa(k)
+						}
+					}
+					if bi == "?" && len(me.Bindings) == 0 && route.Binding != nil && *route.Binding == *bridgedesc.DefaultBinding(me) {
+						bi = "d"
+					}
+				}
+			}
+		}
+	}
+	return fmt.Sprintf("F.%s.%d.%s.%s.%s", hx(t.Name), v, si, mi, bi)
+}
+
+func (w *world) probeG(name *string) string {
+	ctx := context.Background()
+	if name != nil {
+		ctx = grpc.NewContextWithServerTransportStream(ctx, fakeSTS{method: *name})
+	}
+	conn, route, err := w.sr.RouteGRPC(ctx)
+	if err != nil {
+		return errTok(err)
+	}
+	return w.grpcTok(conn, route.Target, route.Service, route.Method, true)
+}
+
+func readRequest(method, target string) (*http.Request, error) {
+	return http.ReadRequest(bufio.NewReader(strings.NewReader(method + " " + target + " HTTP/1.1\r\nHost: h\r\n\r\n")))
+}
+
+func (w *world) probeH(method, target string) string {
+	req, err := readRequest(method, target)
+	if err != nil {
+		return "R"
+	}
+	url := "@" + hx(req.URL.Path) + "@" + hx(req.URL.RawPath)
+	conn, route, err := w.sr.RouteHTTP(req)
+	if err != nil {
+		hs := "-"
+		var he interface{ HTTPStatus() int }
+		if errors.As(err, &he) {
+			hs = strconv.Itoa(he.HTTPStatus())
+		}
+		return errTok(err) + "." + hs + url
+	}
+	tok := w.grpcTok(conn, route.Target, route.Service, route.Method, true)
+	if route.Binding == nil || route.PathParams != nil {
+		return "F?binding" + url
+	}
+	return tok + "." + hx(route.Binding.HTTPMethod) + "." + hx(route.Binding.Pattern) + url
+}
+
+var grpcStatusRe = regexp.MustCompile(`(?i)grpc-status: ?(\d+)`)
+
+func (w *world) probeW(target string) string {
+	req, err := readRequest("POST", target)
+	if err != nil {
+		return "R"
+	}
+	w.fwd.got = nil
+	rec := httptest.NewRecorder()
+	w.web.ServeHTTP(rec, req)
+	if p := w.fwd.got; p != nil {
+		return w.grpcTok(p.Outgoing, p.Target, p.Service, p.Method, true)
+	}
+	m := grpcStatusRe.FindSubmatch(rec.Body.Bytes())
+	if m == nil {
+		return "S?"
+	}
+	return "S" + string(m[1])
+}
+
+func (w *world) probeX(name string) string {
+	w.fwd.got = nil
+	ctx := grpc.NewContextWithServerTransportStream(context.Background(), fakeSTS{method: name})
+	err := w.proxy.StreamHandler(nil, fakeServerStream{ctx: ctx})
+	if p := w.fwd.got; p != nil {
+		return w.grpcTok(p.Outgoing, p.Target, p.Service, p.Method, true)
+	}
+	if err == nil {
+		return "S?"
+	}
+	return errTok(err)
+}
+
+// ExecHist runs one history line.
+func ExecHist(input string) string {
+	l := ParseLine(input)
+	w := newWorld(l.Pool)
+	var steps []string
+	for i, o := range l.Ops {
+		parts := []string{w.apply(i, o)}
+		var ps, gs, hs, ws, xs []string
+		for _, p := range l.P {
+			ps = append(ps, w.probeP(p[0], p[1]))
+		}
+		for _, g := range l.G {
+			gs = append(gs, w.probeG(g))
+		}
+		for _, h := range l.H {
+			hs = append(hs, w.probeH(h[0], h[1]))
+		}
+		for _, t := range l.W {
+			ws = append(ws, w.probeW(t))
+		}
+		for _, x := range l.X {
+			xs = append(xs, w.probeX(x))
+		}
+		parts = append(parts, strings.Join(ps, ","), strings.Join(gs, ","), strings.Join(hs, ","), strings.Join(ws, ","), strings.Join(xs, ","))
+		steps = append(steps, strings.Join(parts, ";"))
+	}
+	// leave no open watcher behind (nothing observable; keeps the routers collectable)
+	return strings.Join(steps, " ")
+}
+
+// realValid reports whether routing.buildPattern accepts the template.
+func realValid(tmpl string) bool {
+	return routing.VerifBuildPattern(tmpl) == nil
+}
+
+func (Area) Exec(input string) string {
+	f := strings.Fields(input)
+	switch f[0] {
+	case "hist":
+		return ExecHist(input)
+	case "tmpl":
+		if realValid(unhx(f[1])) {
+			return "1"
+		}
+		return "0"
+	}
+	return "BADOP"
+}
+
+// ---------------------------------------------------------------------------------------------
+// generation
+
+var (
+	TargetNames = []string{"a", "b", "c"}
+	SvcNames    = []string{"p.S1", "p.S2", "q.T", "p.S1x", "r.U"}
+	HTTPMethods = []string{"GET", "POST", "DELETE"}
+	ValidTmpls  = []string{"/v1/a", "/v1/{id}", "/v1/a/b", "/v1/*/b", "/v1/a:get", "/v1/{id}:get", "/v2/x", "/v2/{n}/y", "/v2/{n}/{k}", "/p.S1/M1"}
+	BadTmpls    = []string{"", "v1/a", "/v1/{id", "/v1/a b", "/v1/{id}}"}
+	PPaths      = []string{"/v1/a", "/v1/zz", "/v1/a/b", "/v1/q/b", "/v1/a:get", "/v1/zz:get", "/v2/x", "/v2/7/y", "/p.S1/M1", "/p.S2/M1", "/q.T/M2", "/r.U/M1", "/nothing", "/"}
+	GNames      = []string{"/p.S1/M1", "p.S1/M1", "/p.S2/Zzz", "/q.T/M1/x", "/p.S1x/", "/r.U/M1", "/unknown.S/M", "nomethod", "//M"}
+)
+
+var genStats = map[string]int{}
+
+// Mutate derives the next description of a target from its previous one: add / keep / move / drop
+// services, methods, HTTP methods and bindings, inject invalid templates.
+func randBinding(r *rand.Rand) BindingSpec {
+	t := common.Pick(r, ValidTmpls)
+	if r.Intn(8) == 0 {
+		t = common.Pick(r, BadTmpls)
+		genStats["binding:invalid-template"]++
+	}
+	return BindingSpec{common.Pick(r, HTTPMethods), t}
+}
+
+func randMethod(r *rand.Rand, svc string) MethodSpec {
+	m := MethodSpec{RPCName: "/" + svc + "/" + common.Pick(r, []string{"M1", "M2"})}
+	if r.Intn(12) == 0 {
+		m.RPCName = common.Pick(r, []string{"NoSlash", "", "/" + svc + "/{", "/" + svc + "/M 1"})
+		genStats["method:odd-rpcname"]++
+	}
+	switch n := r.Intn(4); n {
+	case 0: // default binding
+	default:
+		for i := 0; i < n; i++ {
+			m.Bindings = append(m.Bindings, randBinding(r))
+		}
+	}
+	return m
+}
+
+func randService(r *rand.Rand, name string) ServiceSpec {
+	s := ServiceSpec{Name: name}
+	for i, n := 0, r.Intn(3); i < n; i++ {
+		s.Methods = append(s.Methods, randMethod(r, name))
+	}
+	return s
+}
+
+func cloneDesc(d *DescSpec) *DescSpec {
+	return parseDesc(d.String())
+}
+
+func Mutate(r *rand.Rand, name string, prev *DescSpec, others []*DescSpec) *DescSpec {
+	return MutateWith(SvcNames)(r, name, prev, others)
+}
+
+// MutateWith is Mutate over a given pool of service names (a small pool makes targets collide often).
+func MutateWith(SvcNames []string) func(r *rand.Rand, name string, prev *DescSpec, others []*DescSpec) *DescSpec {
+	return func(r *rand.Rand, name string, prev *DescSpec, others []*DescSpec) *DescSpec {
+		return mutate(r, SvcNames, name, prev, others)
+	}
+}
+
+func mutate(r *rand.Rand, SvcNames []string, name string, prev *DescSpec, others []*DescSpec) *DescSpec {
+	if prev == nil || r.Intn(6) == 0 {
+		genStats["desc:fresh"]++
+		d := &DescSpec{Name: name}
+		for i, n := 0, r.Intn(4); i < n; i++ {
+			d.Services = append(d.Services, randService(r, common.Pick(r, SvcNames)))
+		}
+		return d
+	}
+	d := cloneDesc(prev)
+	d.Name = name
+	for i, n := 0, 1+r.Intn(3); i < n; i++ {
+		switch k := r.Intn(10); {
+		case k == 0: // keep as is
+			genStats["mut:keep"]++
+		case k == 1 && len(d.Services) > 0: // drop a service
+			j := r.Intn(len(d.Services))
+			d.Services = append(d.Services[:j:j], d.Services[j+1:]...)
+			genStats["mut:drop-service"]++
+		case k == 2: // add a service
+			d.Services = append(d.Services, randService(r, common.Pick(r, SvcNames)))
+			genStats["mut:add-service"]++
+		case k == 3 && len(others) > 0: // move a service over from another target
+			o := common.Pick(r, others)
+			if o != nil && len(o.Services) > 0 {
+				d.Services = append(d.Services, cloneDesc(o).Services[r.Intn(len(o.Services))])
+				genStats["mut:move-service"]++
+			}
+		case k == 4 && len(d.Services) > 0: // add a method
+			j := r.Intn(len(d.Services))
+			d.Services[j].Methods = append(d.Services[j].Methods, randMethod(r, d.Services[j].Name))
+			genStats["mut:add-method"]++
+		case k == 5 && len(d.Services) > 0: // drop a method
+			j := r.Intn(len(d.Services))
+			if ms := d.Services[j].Methods; len(ms) > 0 {
+				q := r.Intn(len(ms))
+				d.Services[j].Methods = append(ms[:q:q], ms[q+1:]...)
+				genStats["mut:drop-method"]++
+			}
+		case k >= 6 && len(d.Services) > 0: // touch a binding: change HTTP method / template, add, drop
+			j := r.Intn(len(d.Services))
+			if ms := d.Services[j].Methods; len(ms) > 0 {
+				m := &ms[r.Intn(len(ms))]
+				switch {
+				case len(m.Bindings) == 0 || k == 6:
+					m.Bindings = append(m.Bindings, randBinding(r))
+					genStats["mut:add-binding"]++
+				case k == 7:
+					q := r.Intn(len(m.Bindings))
+					m.Bindings = append(m.Bindings[:q:q], m.Bindings[q+1:]...)
+					genStats["mut:drop-binding"]++
+				case k == 8:
+					m.Bindings[r.Intn(len(m.Bindings))].HTTPMethod = common.Pick(r, HTTPMethods)
+					genStats["mut:change-http-method"]++
+				default:
+					m.Bindings[r.Intn(len(m.Bindings))] = randBinding(r)
+					genStats["mut:change-binding"]++
+				}
+			}
+		}
+	}
+	if r.Intn(5) == 0 && len(d.Services) > 1 { // reorder services (indices move, names stay)
+		r.Shuffle(len(d.Services), func(i, j int) { d.Services[i], d.Services[j] = d.Services[j], d.Services[i] })
+		genStats["mut:reorder-services"]++
+	}
+	return d
+}
+
+// GenHistory produces a history of n ops over the targets. With churn the targets are closed and
+// re-watched much more often (stale bookkeeping left behind by Close shows only after a re-watch).
+func GenHistory(r *rand.Rand, n int, churn bool, mut func(r *rand.Rand, name string, prev *DescSpec, others []*DescSpec) *DescSpec) []Op {
+	TargetNames := TargetNames
+	if churn {
+		TargetNames = TargetNames[:2]
+	}
+	var ops []Op
+	watched := map[string]bool{}
+	last := map[string]*DescSpec{}
+	closeBelow := 5
+	if churn {
+		closeBelow = 8
+		genStats["history:churn"]++
+	}
+	for len(ops) < n {
+		name := common.Pick(r, TargetNames)
+		switch k := r.Intn(20); {
+		case k < 3: // watch (possibly while watched: ErrAlreadyWatching)
+			if watched[name] && r.Intn(3) != 0 {
+				continue
+			}
+			ops = append(ops, Op{Kind: 'w', Name: name})
+			watched[name] = true
+		case k < closeBelow: // close (rarely without a live watcher)
+			if !watched[name] && r.Intn(6) != 0 {
+				continue
+			}
+			ops = append(ops, Op{Kind: 'c', Name: name})
+			watched[name] = false
+			delete(last, name)
+		case k == closeBelow: // update through the wrong watcher / of a closed watcher
+			var others []*DescSpec
+			for _, o := range TargetNames {
+				if o != name {
+					others = append(others, last[o])
+				}
+			}
+			d := mut(r, name, last[name], others)
+			if r.Intn(2) == 0 {
+				d.Name = common.Pick(r, TargetNames)
+			}
+			ops = append(ops, Op{Kind: 'u', Name: name, Desc: d})
+			if watched[name] && d.Name == name {
+				last[name] = d
+			}
+			genStats["op:odd-update"]++
+		default:
+			if !watched[name] {
+				if len(ops) < n-1 && r.Intn(4) != 0 {
+					ops = append(ops, Op{Kind: 'w', Name: name})
+					watched[name] = true
+				} else {
+					continue
+				}
+			}
+			var others []*DescSpec
+			for _, o := range TargetNames {
+				if o != name {
+					others = append(others, last[o])
+				}
+			}
+			d := mut(r, name, last[name], others)
+			ops = append(ops, Op{Kind: 'u', Name: name, Desc: d})
+			last[name] = d
+		}
+	}
+	return ops
+}
+
+func pProbes() [][2]string {
+	var ps [][2]string
+	for _, p := range PPaths {
+		for _, m := range []string{"GET", "POST"} {
+			ps = append(ps, [2]string{m, p})
+		}
+	}
+	ps = append(ps, [2]string{"DELETE", "/v1/a"}, [2]string{"DELETE", "/v2/7/y"}, [2]string{"PUT", "/v1/a"})
+	return ps
+}
+
+func gProbes() []*string {
+	var gs []*string
+	for i := range GNames {
+		gs = append(gs, &GNames[i])
+	}
+	return append(gs, nil)
+}
+
+func (Area) Extra() map[string]any {
+	out := map[string]any{}
+	for k, v := range genStats {
+		out[k] = v
+	}
+	return map[string]any{"generator": out}
+}
+
+func (Area) Gen(r *rand.Rand, tier string, emit func(string)) {
+	// the driver's instance of the opaque `valid` parameter is tied to buildPattern on the template pool
+	for _, t := range append(append([]string{}, ValidTmpls...), BadTmpls...) {
+		emit("tmpl " + hx(t))
+	}
+	for _, s := range SvcNames {
+		for _, m := range []string{"M1", "M2"} {
+			emit("tmpl " + hx("/"+s+"/"+m))
+		}
+	}
+	for _, t := range []string{"NoSlash", "/p.S1/{", "/p.S1/M 1"} {
+		emit("tmpl " + hx(t))
+	}
+
+	base := &Line{Pool: TargetNames, P: pProbes(), G: gProbes()}
+	// exhaustive short histories over a fixed op alphabet (4-description pool)
+	d1 := &DescSpec{Name: "a", Services: []ServiceSpec{{Name: "p.S1", Methods: []MethodSpec{{RPCName: "/p.S1/M1", Bindings: []BindingSpec{{"GET", "/v1/a"}, {"POST", "/v1/{id}"}}}}}}}
+	d2 := &DescSpec{Name: "a", Services: []ServiceSpec{{Name: "p.S2"}, {Name: "p.S1", Methods: []MethodSpec{{RPCName: "/p.S1/M1", Bindings: []BindingSpec{{"POST", "/v1/{id}"}}}, {RPCName: "/p.S1/M2"}}}}}
+	d3 := &DescSpec{Name: "b", Services: []ServiceSpec{{Name: "p.S1", Methods: []MethodSpec{{RPCName: "/p.S1/M1", Bindings: []BindingSpec{{"GET", "/v1/{id}"}, {"GET", "/v1/{id"}}}}}, {Name: "q.T", Methods: []MethodSpec{{RPCName: "/q.T/M2"}}}}}
+	d4 := &DescSpec{Name: "b", Services: []ServiceSpec{{Name: "q.T", Methods: []MethodSpec{{RPCName: "/q.T/M2", Bindings: []BindingSpec{{"DELETE", "/v1/a"}}}}}}}
+	alpha := []Op{{Kind: 'w', Name: "a"}, {Kind: 'w', Name: "b"}, {Kind: 'c', Name: "a"}, {Kind: 'c', Name: "b"},
+		{Kind: 'u', Name: "a", Desc: d1}, {Kind: 'u', Name: "a", Desc: d2}, {Kind: 'u', Name: "b", Desc: d3}, {Kind: 'u', Name: "b", Desc: d4}}
+	maxLen := 3
+	if tier == "thorough" {
+		maxLen = 4
+	}
+	var rec func(prefix []Op)
+	rec = func(prefix []Op) {
+		if len(prefix) > 0 {
+			l := *base
+			l.Ops = prefix
+			emit(l.String())
+		}
+		if len(prefix) == maxLen {
+			return
+		}
+		for _, o := range alpha {
+			rec(append(append([]Op{}, prefix...), o))
+		}
+	}
+	rec(nil)
+
+	n, maxOps := 300, 12
+	if tier == "thorough" {
+		n, maxOps = 6000, 30
+	}
+	for i := 0; i < n; i++ {
+		l := *base
+		if r.Intn(10) == 0 { // one target without a pooled connection
+			l.Pool = []string{"a", "b", "c"}[:2]
+		}
+		if i%3 == 2 { // churn: two targets, two services, frequent close / re-watch
+			l.Ops = GenHistory(r, 2+r.Intn(maxOps-1), true, MutateWith(SvcNames[:2]))
+		} else {
+			l.Ops = GenHistory(r, 2+r.Intn(maxOps-1), false, Mutate)
+		}
+		emit(l.String())
+	}
+}
